@@ -58,11 +58,10 @@ VARIABLES pc,        \* where the worker thread is
                      \* exchanged messages only (see BeliefAfter)
           needReady, \* observer: a non-OK completion was reported and no
                      \* readiness check passed since
-          rep,       \* observer: what was last reported [n, kind, phase]
           act        \* label of the last action (for exported behaviours)
 
 vars == <<pc, cur, execs, ch, closed, hasExec, cancelled, M, ns, clock, shutdown,
-          pending, retv, req, reply, execAtReq, B, needReady, rep, act>>
+          pending, retv, req, reply, execAtReq, B, needReady, act>>
 
 -----------------------------------------------------------------------------
 (* Values.  All records of one kind have the same fields.                  *)
@@ -162,7 +161,6 @@ Init ==
   /\ execAtReq = FALSE
   /\ B = NoTime
   /\ needReady = FALSE
-  /\ rep = NoReport
   /\ act = [a |-> "Init", d |-> "", k |-> "", n |-> 0, ok |-> TRUE]
 
 Label(a) == [a |-> a, d |-> "", k |-> "", n |-> 0, ok |-> TRUE]
@@ -184,7 +182,7 @@ RunEnter ==
        ELSE /\ pc' = IF M = NoTime THEN "ready" ELSE AfterReadiness
             /\ UNCHANGED retv
   /\ UNCHANGED <<cur, execs, ch, closed, hasExec, cancelled, M, ns, clock, shutdown,
-                 pending, req, reply, execAtReq, B, needReady, rep>>
+                 pending, req, reply, execAtReq, B, needReady>>
 
 ReadyOk ==
   /\ pc = "ready"
@@ -192,14 +190,14 @@ ReadyOk ==
   /\ pc' = AfterReadiness
   /\ needReady' = FALSE
   /\ UNCHANGED <<cur, execs, ch, closed, hasExec, cancelled, M, ns, clock, shutdown,
-                 pending, retv, req, reply, execAtReq, B, rep>>
+                 pending, retv, req, reply, execAtReq, B>>
 
 ReadyFail ==
   /\ pc = "ready"
   /\ act' = Label("ReadyFail")
   /\ Return(TRUE, TRUE)
   /\ UNCHANGED <<cur, execs, ch, closed, hasExec, cancelled, M, ns, clock, shutdown,
-                 pending, req, reply, execAtReq, B, needReady, rep>>
+                 pending, req, reply, execAtReq, B, needReady>>
 
 \* The timer created with nextSynchronizationAt - now has expired.
 TimerFires ==
@@ -208,7 +206,7 @@ TimerFires ==
   /\ act' = Label("TimerFires")
   /\ pc' = "send"
   /\ UNCHANGED <<cur, execs, ch, closed, hasExec, cancelled, M, ns, clock, shutdown,
-                 pending, retv, req, reply, execAtReq, B, needReady, rep>>
+                 pending, retv, req, reply, execAtReq, B, needReady>>
 
 \* applyExecutionUpdate on whatever a receive from the channel yields.
 CanReceive == hasExec /\ (ch # <<>> \/ closed)
@@ -229,7 +227,7 @@ RecvUpdate ==
   /\ Receive
   /\ pc' = "drain"
   /\ UNCHANGED <<execs, closed, M, ns, clock, shutdown,
-                 pending, retv, req, reply, execAtReq, B, needReady, rep>>
+                 pending, retv, req, reply, execAtReq, B, needReady>>
 
 DrainOne ==
   /\ pc = "drain"
@@ -237,7 +235,7 @@ DrainOne ==
   /\ act' = Label("DrainOne")
   /\ Receive
   /\ UNCHANGED <<pc, execs, closed, M, ns, clock, shutdown,
-                 pending, retv, req, reply, execAtReq, B, needReady, rep>>
+                 pending, retv, req, reply, execAtReq, B, needReady>>
 
 DrainDone ==
   /\ pc = "drain"
@@ -246,7 +244,7 @@ DrainDone ==
   /\ ns' = Min(ns, clock)
   /\ pc' = "send"
   /\ UNCHANGED <<cur, execs, ch, closed, hasExec, cancelled, M, clock, shutdown,
-                 pending, retv, req, reply, execAtReq, B, needReady, rep>>
+                 pending, retv, req, reply, execAtReq, B, needReady>>
 
 \* Choice of prefer_being_idle and the call of Synchronize.
 Prefer ==
@@ -260,7 +258,6 @@ Send ==
   /\ act' = Label("Send")
   /\ req' = [st |-> cur, prefer |-> Prefer, sd |-> shutdown]
   /\ execAtReq' = (cur.kind = "executing")
-  /\ rep' = ReportOf(cur, execs)
   /\ needReady' = (needReady \/ (cur.kind = "completed" /\ ~cur.ok))
   /\ pc' = "sync"
   /\ UNCHANGED <<cur, execs, ch, closed, hasExec, cancelled, M, ns, clock, shutdown,
@@ -296,7 +293,7 @@ SyncReply(r) ==
                    THEN M' = clock + r.delta + Minute /\ Return(FALSE, FALSE)
                    ELSE M' = NoTime /\ Return(TRUE, FALSE)
   /\ UNCHANGED <<cur, execs, ch, closed, hasExec, cancelled, clock, shutdown,
-                 req, execAtReq, rep>>
+                 req, execAtReq>>
 
 \* stopExecution, first half: cancel the running action (if any).
 StopBegin ==
@@ -310,7 +307,7 @@ StopBegin ==
             /\ pc' = "stopped"
             /\ UNCHANGED cancelled
   /\ UNCHANGED <<execs, ch, closed, hasExec, M, ns, clock, shutdown,
-                 pending, retv, req, reply, execAtReq, B, needReady, rep>>
+                 pending, retv, req, reply, execAtReq, B, needReady>>
 
 \* ... second half: read and discard until the channel is closed.
 StopDrain ==
@@ -325,7 +322,7 @@ StopDrain ==
             /\ pc' = "stopped"
             /\ UNCHANGED ch
   /\ UNCHANGED <<execs, closed, cancelled, M, ns, clock, shutdown,
-                 pending, retv, req, reply, execAtReq, B, needReady, rep>>
+                 pending, retv, req, reply, execAtReq, B, needReady>>
 
 \* After stopExecution: either spawn the requested action or stay idle.
 StopEnd ==
@@ -344,7 +341,7 @@ StopEnd ==
             /\ M' = ns + Minute
             /\ Return(FALSE, FALSE)
   /\ pending' = ""
-  /\ UNCHANGED <<ns, clock, shutdown, req, reply, execAtReq, B, needReady, rep>>
+  /\ UNCHANGED <<ns, clock, shutdown, req, reply, execAtReq, B, needReady>>
 
 \* LaunchWorkerThread's use of the return value.
 LoopCheck ==
@@ -352,13 +349,13 @@ LoopCheck ==
   /\ act' = Label("LoopCheck")
   /\ pc' = IF retv.may /\ shutdown THEN "terminated" ELSE "top"
   /\ UNCHANGED <<cur, execs, ch, closed, hasExec, cancelled, M, ns, clock, shutdown,
-                 pending, retv, req, reply, execAtReq, B, needReady, rep>>
+                 pending, retv, req, reply, execAtReq, B, needReady>>
 
 -----------------------------------------------------------------------------
 (* The goroutine around BuildExecutor.Execute().                           *)
 
 ExecUnch == UNCHANGED <<pc, cur, hasExec, cancelled, M, ns, clock, shutdown,
-                        pending, retv, req, reply, execAtReq, B, needReady, rep>>
+                        pending, retv, req, reply, execAtReq, B, needReady>>
 
 ExecEnter(i) ==
   /\ execs[i].st = "spawned"
@@ -416,7 +413,7 @@ Shutdown ==
   /\ act' = Label("Shutdown")
   /\ shutdown' = TRUE
   /\ UNCHANGED <<pc, cur, execs, ch, closed, hasExec, cancelled, M, ns, clock,
-                 pending, retv, req, reply, execAtReq, B, needReady, rep>>
+                 pending, retv, req, reply, execAtReq, B, needReady>>
 
 \* The clock is read at the top of Run(), when the timer is armed / fires,
 \* after draining and when a reply arrives; a tick anywhere else commutes with
@@ -427,7 +424,7 @@ Tick ==
   /\ act' = Label("Tick")
   /\ clock' = clock + 1
   /\ UNCHANGED <<pc, cur, execs, ch, closed, hasExec, cancelled, M, ns, shutdown,
-                 pending, retv, req, reply, execAtReq, B, needReady, rep>>
+                 pending, retv, req, reply, execAtReq, B, needReady>>
 
 Next ==
   \/ RunEnter \/ ReadyOk \/ ReadyFail \/ TimerFires \/ RecvUpdate
@@ -453,7 +450,7 @@ StateView ==
     ch, closed, hasExec, M, ns, clock, shutdown, pending,
     IF pc = "ret" THEN <<retv, reply.kind>> ELSE <<>>,
     IF pc = "sync" THEN <<req, execAtReq>> ELSE <<>>,
-    B, needReady, rep>>
+    B, needReady>>
 
 -----------------------------------------------------------------------------
 (* Properties.                                                             *)
@@ -486,8 +483,9 @@ C08_CancelBeforeWait ==
 C08_Honest ==
   pc = "sync" => HonestState(req.st, execs)
 
+\* (what is reported is `cur`, so it suffices that `cur` never goes backwards)
 C08_MonotoneReports ==
-  [][pc' = "sync" /\ pc = "send" => Monotone(rep, req'.st, execs)]_vars
+  [][Len(execs') = Len(execs) => Monotone(ReportOf(cur, execs), cur', execs)]_vars
 
 \* Told to go idle: the executor has stopped and the state is idle when Run
 \* returns; told to execute: that action (and no other) is what is reported.
